@@ -114,6 +114,34 @@ Proof.
   intros E; inversion E; subst; reflexivity.
 Qed.
 
+(* the guard of a union value view's write-back (fix D15): it passes exactly while the union still holds an option of the
+   view's type — in particular whenever the hook is valid in the sense of uelem *)
+Lemma ty_eqb_refl : forall t, ty_eqb t t = true.
+Proof.
+  induction t as [k| |bn|bl|yn|yl|e n IHe|e l IHe|fs Hfs|b os Hos] using ty_ind'; cbn [ty_eqb]; try apply N.eqb_refl; try reflexivity.
+  - now rewrite IHe, N.eqb_refl.
+  - now rewrite IHe, N.eqb_refl.
+  - induction Hfs as [|f fs' Hf Hfs' IH]; [reflexivity|]. now rewrite Hf, IH.
+  - rewrite Bool.eqb_reflx. cbn [andb]. induction Hos as [|o os' Ho Hos' IH]; [reflexivity|]. now rewrite Ho, IH.
+Qed.
+
+Lemma union_guard_ok t pv pn e old : wf_ty t = true -> wf t pv = true -> Repr t pv pn -> uelem t pv = Some (e, old) ->
+  union_guard H src t pn e = Ok tt.
+Proof.
+  intros Hty Hwf Hr He. destruct t as [k0| |bn|bl|bvn|byl|e0 nn|e0 l|fs|b os]; destruct pv as [| | | | | |sel ov]; cbn [uelem] in He; try discriminate.
+  destruct ov as [y|]; [|discriminate]. destruct (if b then Nat.eqb sel 0 else false) eqn:Hb0; [discriminate|].
+  destruct (nth_error os (if b then pred sel else sel)) as [o'|] eqn:Hn; [|discriminate]. inversion He; subst o' y.
+  cbn [ReprProofs.Repr] in Hr. destruct Hr as (c & Hpn & _).
+  assert (N.of_nat sel < lenN os + (if b then 1 else 0)) as Hsel.
+  { assert ((if b then pred sel else sel) < length os)%nat as Hl by (apply nth_error_Some; congruence). unfold lenN. destruct b; [apply Nat.eqb_neq in Hb0|]; lia. }
+  cbn [wf_ty] in Hty. apply andb_true_iff in Hty as [_ Hcount]. apply N.leb_le in Hcount.
+  unfold union_guard, union_selector. rewrite Hpn. rewrite (mixin_len_node H src c (N.of_nat sel)) by lia. cbn [bind].
+  assert ((lenN os + (if b then 1 else 0) <=? N.of_nat sel) = false) as -> by (apply N.leb_gt; exact Hsel). cbn [bind]. rewrite Nat2N.id.
+  assert (union_opt b os sel = Some e) as ->.
+  { unfold union_opt. destruct b; [destruct sel; [discriminate|exact Hn]|exact Hn]. }
+  now rewrite ty_eqb_refl.
+Qed.
+
 (* ---- hook chains of any depth ---- *)
 Inductive link := LRoot | LElem (i : N) | LUnion.
 Definition good (c : cell) (v : val) : Prop := wf_ty (cty c) = true /\ wf (cty c) v = true /\ Repr (cty c) v (cback c).
@@ -267,7 +295,7 @@ Proof.
     rewrite Hp1.
     destruct (chain_head s p pv lk' rest' Hch') as (pc0 & Hpc0 & (Hpty & Hpwf & Hprep)). rewrite Hp in Hpc0. inversion Hpc0; subst pc0.
     destruct (union_parent_set (cty pc) pv (cback pc) (cty c) old x nb Hpwf Hprep He Hwx Hrx) as (pn' & Hvs & Hr' & Hwf').
-    rewrite Hvs.
+    rewrite (union_guard_ok (cty pc) pv (cback pc) (cty c) old Hpty Hpwf Hprep He). cbn [bind]. rewrite Hvs.
     (* the rest of the chain in the store with the child's cell written *)
     pose proof (chain_ids s _ Hch cid v LUnion _ eq_refl) as Hids.
     assert (Chain (upd_cell s cid c1) ((p, pv, lk') :: rest')) as Hch1.
